@@ -23,7 +23,7 @@ TECHNIQUE = ('explicit-state bfs over structured edits x option settings on full
              'line/token/comment diff against an allowed region computed from CPython positions, the token stream and a reference of '
              'the documented trivia selection')
 LEVEL_TEXT = ('every edit of the alphabet (replace, remove, slice put/delete, insert at every target) x 9 trivia/pep8space/elif_/docstr '
-              'settings on 38 programs (12 fully commented, 12 shared, 14 hostile: comments ending in a backslash or looking like code, multi-line and nested f-strings inside re-indented blocks) is executed; all old non-blank lines outside the allowed line span must be '
+              'settings on 48 programs (12 fully commented, 16 shared, 20 hostile: comments ending in a backslash or looking like code, multi-line and nested f-strings inside re-indented blocks) is executed; all old non-blank lines outside the allowed line span must be '
               'byte-identical and in order, the payload token sequence (names, numbers, strings, non-separator keywords) must equal the old one with the tokens inside the edited extent swapped for those of the new code, and the comment multiset must be conserved '
               'except for comments the effective trivia option selects')
 LEVEL_NOTE = ('trusted: CPython ast positions / tokenize; the trivia reference treats the option as permission, not obligation; the '
